@@ -606,4 +606,47 @@ mutual
               (by rw [reprss]; exact List.mem_append_right _ hy)) hh.2⟩
 end
 
+/-! ### reading `Agree` along a path -/
+
+/-- `AgreeAlong H π l p t`: follow the reference indices `π` simultaneously in `p` and `t`, starting at level `l` (a child
+is looked at on level `μ(parent)`, the level of the parent's level-0 representation).  Until a pruned branch
+answering with a stored hash is met on either side, both trees have the same number of references at every step, the
+path exists in both or in neither, and the two cells reached `Agree`. -/
+def AgreeAlong (H : Bytes → Bytes) : List Nat → Nat → Cell → Cell → Prop
+  | [], l, p, t => Agree H l p t
+  | i :: π, l, .mk kp bp rp, .mk kt bt rt =>
+    StoredAt kp bp l ∨ StoredAt kt bt l ∨
+      (rp.length = rt.length ∧ ∀ p' t', rp[i]? = some p' → rt[i]? = some t' → AgreeAlong H π (muOf kp) p' t')
+
+theorem Agrees_get (H : Bytes → Bytes) : ∀ (ps ts : List Cell) (l : Nat), Agrees H l ps ts →
+    ∀ (i : Nat) (p t : Cell), ps[i]? = some p → ts[i]? = some t → Agree H l p t
+  | [], ts, l, h, i, p, t, hp, ht => by simp at hp
+  | q :: ps, ts, l, h, i, p, t, hp, ht => by
+    rw [Agrees] at h
+    obtain ⟨u, ts', rfl, h1, h2⟩ := h
+    cases i with
+    | zero =>
+      simp only [List.getElem?_cons_zero, Option.some.injEq] at hp ht
+      subst hp; subst ht; exact h1
+    | succ i =>
+      simp only [List.getElem?_cons_succ] at hp ht
+      exact Agrees_get H ps ts' l h2 i p t hp ht
+
+/-- `Agree` at the roots gives agreement along EVERY path (every unpruned cell is reached by one) -/
+theorem agree_along (H : Bytes → Bytes) : ∀ (π : List Nat) (l : Nat) (p t : Cell), Agree H l p t → AgreeAlong H π l p t
+  | [], l, p, t, h => by rw [AgreeAlong]; exact h
+  | i :: π, l, .mk kp bp rp, .mk kt bt rt, h => by
+    rw [AgreeAlong]
+    have h' := h
+    rw [Agree] at h'
+    obtain ⟨⟨sp, st, hsp, hst, hh⟩, hc⟩ := h'
+    rcases hc with h1 | h1 | ⟨ek, eb, en, hk⟩
+    · exact Or.inl h1
+    · exact Or.inr (Or.inl h1)
+    · refine Or.inr (Or.inr ⟨en, ?_⟩)
+      intro p' t' hp' ht'
+      have hkids := hk sp hsp 0 (Nat.zero_le _) (sigB_zero _)
+      rw [Nat.zero_add] at hkids
+      exact agree_along H π (muOf kp) p' t' (Agrees_get H rp rt _ hkids i p' t' hp' ht')
+
 end TonVerif.Proofs.Binding
